@@ -65,6 +65,51 @@ def gen_ff_case(rng):
     return case
 
 
+SOLVERS = ['direct', 'direct', 'direct_asm', 'lbgs', 'krylov', 'krylov_asm', 'runonce']
+
+
+def gen_solve_case(rng):
+    """linear solves in fwd vs rev on a group with random output scaling (ref != res_ref, arrays and scalars,
+    negative values) under every linear solver; the system is block lower triangular (feed-forward, implicit
+    components only with a diagonal d(res)/d(own output)), hence always solvable"""
+    case = gen_ff_case(rng)
+    case['kind'] = 'solve'
+    solver = rng.choice(SOLVERS)
+    case['solver'] = solver
+    P = [Fraction(1, 4), Fraction(1, 2), Fraction(1), Fraction(2), Fraction(4), Fraction(8)]
+    P = P + [-x for x in P]
+    up = case['updates'][0]
+    for c in case['comps']:
+        if solver in ('direct', 'direct_asm', 'krylov', 'krylov_asm') and rng.random() < 0.4:
+            c['implicit'] = True
+            for o in c['outputs']:
+                c['partials'].append({'kind': 'diag', 'of': o['name'], 'wrt': o['name']})
+                up['vals']['%s:%s:%s' % (c['name'], o['name'], o['name'])] = [
+                    [rng.choice([2, -2, 4, -4, 1, -1]), 0] for _ in range(o['size'])]
+        for o in c['outputs']:
+            n = o['size']
+            if rng.random() < 0.85:
+                arr = rng.random() < 0.35
+                pick = (lambda: [rng.choice(P) for _ in range(n)]) if arr else (lambda: rng.choice(P))
+                a1 = pick()
+                r0 = rng.choice([0, 0, 1, -2, Fraction(1, 2), 3])
+                o['ref0'] = r0
+                o['ref'] = [x + r0 for x in a1] if arr else a1 + r0
+                if rng.random() < 0.8:
+                    o['res_ref'] = pick()
+    return jsonq(case)
+
+
+def jsonq(x):
+    if isinstance(x, Fraction):
+        return {'q': [x.numerator, x.denominator]} if x.denominator != 1 else int(x)
+    if isinstance(x, dict):
+        return {k: jsonq(v) for k, v in x.items()}
+    if isinstance(x, (list, tuple)):
+        return [jsonq(v) for v in x]
+    return x
+
+
 # ----------------------------------------------------------------------------- raw entries of the intended jacobian
 
 def pat_rc(p, nr, nc):
@@ -127,7 +172,9 @@ class C02(Spec):
             'DefaultTransfer._transfer fwd/rev (full and per-subsystem), Group._transfer with unit scaling, '
             'run_apply_linear of every component, of the group (matrix-free and assembled csc) and of the whole model; '
             'plus explicit feed-forward models: run_solve_linear fwd/rev and compute_jacvec_product fwd/rev against '
-            'compute_totals; a case is non-trivial when distinct')
+            'compute_totals; plus block-triangular groups with random output scaling (ref/ref0/res_ref scalars and '
+            'arrays, negative, ref != res_ref) solved fwd and rev under DirectSolver (assembled or not), LinearBlockGS, '
+            'ScipyKrylov (assembled or not) and LinearRunOnce; a case is non-trivial when distinct')
     assumptions = ['index arrays of the transfers and the order of sub-jacobians are read from the real objects '
                    '(their agreement with the generated connections is checked)',
                    'totals / solves / whole-model apply are checked by the adjoint identity and against compute_totals '
@@ -138,10 +185,12 @@ class C02(Spec):
 
     def gen(self, tier, rng):
         n = 100 if tier == 'quick' else 3000
-        return [gen_group_case(rng) for _ in range(n)] + [gen_ff_case(rng) for _ in range(n // 2)]
+        return ([gen_group_case(rng) for _ in range(n)] + [gen_ff_case(rng) for _ in range(n // 2)] +
+                [gen_solve_case(rng) for _ in range(n)])
 
     def search_gen(self, tier, rng):
-        return [gen_group_case(rng) for _ in range(300)] + [gen_ff_case(rng) for _ in range(150)]
+        return ([gen_group_case(rng) for _ in range(300)] + [gen_ff_case(rng) for _ in range(150)] +
+                [gen_solve_case(rng) for _ in range(300)])
 
     def compare_case(self, case, res):
         if res.get('res', '__none__') == '__none__':
